@@ -49,7 +49,7 @@ pub fn run(args: &Args) {
         "(L (keyed 0) (el 112 (A) (C (dtext 1))))",
         "(L (el 100 (A) (C (dview 1 (alt (text 120)) (alt (el 98 (A) (C)))) (keyed 0) (dview 1 (alt (text 121)) (alt)))))",
     ];
-    let fam_ns: Vec<&str> = if args.extra.iter().any(|x| x == "--with-nossr") { vec![
+    let fam_ns: Vec<&str> = if true { vec![
         "(L (el 100 (A) (C (nossr (el 103 (A) (C (dtext 0)))) (el 109 (A) (C (dtext 1))))))",
         "(L (nossr (dtext 0) (text 97)) (el 109 (A (99 (d 0))) (C)))",
         "(L (el 100 (A) (C (text 97) (nossr (dview 0 (alt (text 120)) (alt (el 98 (A) (C))))) (dtext 1))))",
